@@ -33,6 +33,10 @@ Value& GETENVExpression::value(Context & ctx) const
   Value& val = _args[0]->value(ctx);
   Value v(Value::type_literal);
 
+  /* a table, null or not, is not an argument of this function */
+  if (val.type().level())
+    throw RuntimeError(EXC_RT_FUNC_ARG_TYPE_S, KEYWORDS[oper]);
+
   switch (val.type().major())
   {
   case Type::NO_TYPE:
